@@ -157,4 +157,6 @@ def drive_filtered(ctx, drv, gp, cfg, pending):
         json.dump({"property": "C49", "finding": "C49-F1/F2", "cfg": cfg, "schedules": s["extra"].get("property_violating_paths")}, open(rp, "w"), indent=1)
         s["extra"]["property_violating_paths"] = "see " + rp
     ctx.absorb(s, "c49-replay-" + cfg)
+    # every executed schedule is a behaviour of the specification compared step by step with the real server
+    ctx.cov["traces_validated_against_impl"] += int(s.get("evaluations", 0))
     return s, p
